@@ -409,6 +409,10 @@ def loop_body_must_call(body, loop, call_blocks, removed_edges=frozenset()):
     return w
 
 
+def F_body(body, name):
+    return body.facts.bodies.get(name)
+
+
 def flush_loop_precedes(ctx, key, body, field, callee_pats, later_sites, desc, removed_edges=frozenset(), rule='K2-loop-order'):
     """a complete `for` loop over `field` whose every iteration calls callee_pats (error -> exit)
     lies on every path to each of later_sites."""
@@ -424,6 +428,21 @@ def flush_loop_precedes(ctx, key, body, field, callee_pats, later_sites, desc, r
             good.append(lp)
         else:
             why.append('loop at %s: iteration path without the call: %s' % (body.loc(lp['head']), short_path(body, w)))
+    if not good:
+        # helper form: a crate function called here that contains such a complete loop on all its Ok paths
+        for bi, t in body.calls():
+            if bi not in body.normal_blocks():
+                continue
+            for n in call_names(t):
+                cb = F_body(body, n)
+                if cb is None or cb is body:
+                    continue
+                ccalls = cb.call_sites(*callee_pats)
+                if not ccalls:
+                    continue
+                for lp in for_loops_over(cb, field):
+                    if loop_body_must_call(cb, lp, ccalls) is None and cb.find_path([0], cb.return_blocks(), removed={lp['head']} | core.error_exit_blocks(cb)) is None:
+                        good.append({'head': bi, 'none': t.get('t'), 'combinator': True})
     if not good:
         # combinator form: try_for_each/for_each over the field with a closure that must-call
         for bi, t in body.calls():
